@@ -298,6 +298,11 @@ def run(ctx, rep, model=None):
     rep.assume("struct '!d' packing is bit-exact; zlib/struct behave as documented",
                "objects larger than 4 GiB and the interpreter's int-to-str digit limit are out of scope (property wording)",
                "guard chains compare lengths with integer constants only: sampling c-1, c, c+1 for every constant is exhaustive")
+    # the codec keeps no state between calls: a module-level cache written while encoding/decoding is shared by every connection
+    # and thread of the process (check-then-use races, stale entries keyed by id()) (= R16.3 for brine.py)
+    rep.rule("R04.8", "the codec is stateless: no module-level table of brine.py is written by dump/load/dumpable (= R16.3)")
+    from . import common as K0
+    K0.share(ctx, rep, "c16", lambda o: o.rule == "R16.3" and "rpyc.core.brine" in o.key, "R04.8")
     m = model or Model(ctx)
     mod = m.mod
     rep.analysed(module=mod)
